@@ -3,6 +3,7 @@ package cctfe
 import (
 	"bytes"
 	"crypto/sha256"
+	stdx509 "crypto/x509"
 	"crypto/x509/pkix"
 	"encoding/asn1"
 	"encoding/json"
@@ -34,7 +35,9 @@ type ShapeCase struct {
 		Quirk   string `json:"quirk"`
 		Storage string `json:"storage"`
 		Trust   string `json:"trust"`
+		Wire    string `json:"wire"`
 	} `json:"shape"`
+	Admit        bool     `json:"admit"`
 	Submitted    []string `json:"submitted"`
 	Path         []string `json:"path"`
 	Trusted      []string `json:"trusted"`
@@ -48,7 +51,7 @@ func (c ShapeCase) fp() string {
 	if c.Shape.Storage == "direct" {
 		st = "direct"
 	}
-	return fmt.Sprintf("%s:%s:%s:%s:%s", c.Shape.Kind, c.Shape.Iss, c.Shape.Tail, c.Shape.Quirk, st)
+	return fmt.Sprintf("%s:%s:%s:%s:%s:%s", c.Shape.Kind, c.Shape.Iss, c.Shape.Tail, c.Shape.Quirk, c.Shape.Wire, st)
 }
 
 var quirkExt = map[string]pkix.Extension{
@@ -82,6 +85,7 @@ func TestShapes(t *testing.T) {
 	nodes["I2"] = nodes["I1"].Issue(pki.Opts{CN: "I2", IsCA: true, KeyType: "rsa2048"})
 	nodes["P"] = nodes["I1"].Issue(pki.Opts{CN: "P pre-issuer", IsCA: true, OtherEKUs: pki.OIDEKUCTs()})
 	nodes["Pf"] = nodes["I1"].Issue(pki.Opts{CN: "Pf pre-issuer", IsCA: true, OtherEKUs: pki.OIDEKUCTs(), FullAKID: true})
+	nodes["Pm"] = nodes["I1"].Issue(pki.Opts{CN: "Pm pre-issuer", IsCA: true, EKUs: []stdx509.ExtKeyUsage{stdx509.ExtKeyUsageServerAuth}, OtherEKUs: pki.OIDEKUCTs()})
 
 	groups := map[string][]int{}
 	for i, c := range cases {
@@ -144,6 +148,9 @@ func TestShapes(t *testing.T) {
 				}
 			}
 			leaf := nodes[c.Submitted[1]].Issue(o)
+			if c.Shape.Wire == "laxSerial" || c.Shape.Wire == "laxSerialTrailing" {
+				leaf = pki.NonMinimalSerial(leaf)
+			}
 			nodes["L"] = leaf
 			m := &made{c: c, sub: &Sub{ID: fmt.Sprintf("c%d", ci), Pre: c.Shape.Kind == "precert", Shape: c.fp(), PreIssuer: c.ViaPreIssuer}}
 			for _, id := range c.Submitted {
@@ -154,6 +161,33 @@ func TestShapes(t *testing.T) {
 			}
 			m.sub.Path = m.pathDERs
 			ms = append(ms, m)
+			if c.Shape.Wire == "trailing" || c.Shape.Wire == "laxSerialTrailing" {
+				// further octets inside the leaf's chain element
+				m.sub.Chain[0] = append(append([]byte{}, leaf.DER...), 0xde, 0xad, 0xbe, 0xef)
+			}
+			if !c.Admit {
+				// the specification refuses this submission.  Whatever the status, C01's law is conditional on 200:
+				// then the SCT must verify over the entry derived from the octets that were submitted.
+				w.SetTick(n)
+				code, rsp, body, err := env.AddChain(m.sub.Chain, m.sub.Pre)
+				switch {
+				case err != nil:
+					viol("submit-panic", err.Error())
+				case code == 200:
+					msg := "no RFC 6962 entry can be derived from the submitted octets"
+					path := append([][]byte{m.sub.Chain[0]}, m.pathDERs[1:]...)
+					if e, err := ref.EntryForChain(path, c.ViaPreIssuer); err == nil {
+						m.sub.Entry = e
+						msg = w.CheckSCT(m.sub, rsp, w.Ms(n))
+					}
+					if msg != "" {
+						viol("not-a-certificate-200", fmt.Sprintf("the leaf element is not one certificate (%s), the log answered 200 and an SCT that does not bind the submitted octets: %s", c.Shape.Wire, msg))
+					}
+				case code < 400 || code > 499:
+					viol("not-a-certificate-status", fmt.Sprintf("the leaf element is not one certificate (%s): expected 4xx, got %d %s", c.Shape.Wire, code, body))
+				}
+				continue
+			}
 			e, err := ref.EntryForChain(m.pathDERs, c.ViaPreIssuer)
 			if err != nil {
 				t.Fatalf("independent entry for %s: %v", c.fp(), err)
